@@ -17,6 +17,7 @@ import (
 	"context"
 	"fmt"
 	"math/big"
+	"strconv"
 	"strings"
 
 	"github.com/attestantio/go-block-relay/services/blockauctioneer"
@@ -95,6 +96,9 @@ func (s *Service) auctionBlock(ctx context.Context,
 	return res, nil
 }
 
+// bidCacheSlots is the number of slots for which the results of an auction are kept.
+const bidCacheSlots = 32
+
 func (s *Service) cacheBid(_ context.Context,
 	slot phase0.Slot,
 	parentHash phase0.Hash32,
@@ -124,6 +128,12 @@ func (s *Service) cacheBid(_ context.Context,
 		s.builderBidsCache[key] = make(map[string]*builderspec.VersionedSignedBuilderBid)
 	}
 	s.builderBidsCache[key][subKey] = bid
+	// Bids are only asked for around the slot of their auction, so drop those of long-gone slots.
+	for cachedKey := range s.builderBidsCache {
+		if cachedSlot, err := strconv.ParseUint(cachedKey, 10, 64); err == nil && cachedSlot+bidCacheSlots < uint64(slot) {
+			delete(s.builderBidsCache, cachedKey)
+		}
+	}
 	s.builderBidsCacheMu.Unlock()
 }
 
